@@ -5,7 +5,7 @@ use std::time::Instant;
 use serde_json::{json, Value};
 
 use crate::{
-	c07,
+	c07, c16,
 	evidence::{write_evidence, EvidenceInput},
 	harness::{self, report_violations, run_batch, BatchCfg, BatchResult, ReplayFile, Scenario, Tier},
 	known,
@@ -149,6 +149,22 @@ pub fn check(property: &str, tier: Tier, seed: u64, workers: usize) -> i32 {
 				start,
 			)
 		}
+		"C16" => {
+			run_scn(&c16::C16, if q { 30_000 } else { 2_000_000 }, tier, seed, workers, false, &mut out);
+			finish(
+				property,
+				tier,
+				seed,
+				out,
+				"each case is one seeded plan: a target program from the template pool (60% drawn from the families whose output could expose iteration order: field listings, suggestion lists with tied scores, several simultaneous errors, TLA mismatches), a hash salt (iteration order of every map keyed by interned strings), a pre-interned string pool, 0-30 earlier evaluations on the same thread and states (succeeding, failing, cut off by a frame limit), and the state that evaluates the target (fresh / long-lived / second). Oracle: byte equality of output-or-error text and of the std.trace event list with a pristine-thread reference (salt 0, no history). Non-trivial = salt differs from the reference salt or a frame-limit cut-off fired in the history; distinct = distinct event-log digests.",
+				vec![
+					"salted content hashing (guarded hook) permutes the same maps that address hashing perturbs in production".into(),
+					"the reference run itself is correct only up to determinism: this check does not judge what the output should be".into(),
+				],
+				json!({}),
+				start,
+			)
+		}
 		_ => {
 			eprintln!("unknown or unclaimed property {property}");
 			2
@@ -159,6 +175,7 @@ pub fn check(property: &str, tier: Tier, seed: u64, workers: usize) -> i32 {
 pub fn replay(file: &ReplayFile) -> i32 {
 	match file.scenario.as_str() {
 		"c07_m1" => harness::replay(&c07::C07M1, file),
+		"c16_history" => harness::replay(&c16::C16, file),
 		other => {
 			eprintln!("unknown scenario {other}");
 			2
@@ -186,6 +203,7 @@ pub fn digests(scenario: &str, seed: u64, runs: u64, workers: usize) -> i32 {
 	}
 	match scenario {
 		"c07_m1" => go(&c07::C07M1, seed, runs, workers),
+		"c16_history" => go(&c16::C16, seed, runs, workers),
 		other => {
 			eprintln!("unknown scenario {other}");
 			2
